@@ -142,7 +142,8 @@ func (ss *ScenarioSet) Notes() []*ScenarioNote {
 	notes := make([]*ScenarioNote, 0)
 	for _, row := range ss.List {
 		if row.Note != nil {
-			notes = append(notes, row.Note)
+			// with the code it is given when applied, see SummaryFor
+			notes = append(notes, row.Note.withCode(row.ExtCode))
 		}
 	}
 	return notes
